@@ -4,7 +4,8 @@ From NSL Require Import Base.Types Base.Syntax Model.PyNum Model.IR Model.VM Mod
      Harness.RunLib Proofs.OpsAgree Proofs.LowerExprProofs Proofs.ElabExprProofs Proofs.ReturnExprProofs Proofs.CallAgreeProofs
      Proofs.ReturnExprExample Harness.FragLib Proofs.LowerStmtProofs Proofs.ElabStmtProofs Proofs.StraightLineProofs Proofs.StraightLineExample
      Proofs.ForwardProofs Harness.FwdLib Harness.FragLib2 Model.Opt Proofs.FlowLowerProofs Proofs.FlowFuncProofs Harness.FlowLib
-     Proofs.FlowElabProofs Proofs.FlowTableProofs Proofs.FlowSimProofs Proofs.FlowSimExample Harness.FlowLib2 Proofs.HistoryRefineProofs.
+     Proofs.FlowElabProofs Proofs.FlowTableProofs Proofs.FlowSimProofs Proofs.FlowSimExample Harness.FlowLib2 Proofs.HistoryRefineProofs
+     Proofs.LoopLowerProofs Proofs.LoopElabProofs Proofs.LoopSimProofs Proofs.LoopSimExample Harness.LoopLib.
 From NSLDyn Require Gen_VM Agree_VM Gen_Shapes.
 Import ListNotations.
 
@@ -167,8 +168,7 @@ Proof. exact flow_function_correct. Qed.
     frames pushed for a block or a conditional stay empty, so the agreement on visible names survives push and pop; the
     truth value of the condition is the VM's), the constant table of a function with nested statements holds every
     literal typed and exact ([flow_function_lits_ok]), and the call agreement.  [flowsrc_in_fragment] decides the
-    static hypotheses and is evaluated by the check on generated functions.  Missing: declarations inside blocks, loops,
-    early returns, calls, aggregates. *)
+    static hypotheses and is evaluated by the check on generated functions.  While loops: (7) below. *)
 Theorem C01_conditional_functions_partial :
   forall (M : module) (fn : func) (n : nat) (l : list stmt) (e : expr) (tf : tfunc) (F : ifunc),
     f_body fn = l ++ [SRet (Some e)] -> forallb (stop n) l = true -> spure e = true ->
@@ -210,6 +210,59 @@ Example C01_conditional_values :
   run 80 {| p_funcs := [fs_F]; p_globals := ["g"%string] |} fs_F 0 (call_frame fs_ws (init_regs fs_F)) fs_vs = Done (VFloat 13.75%float) {| globals := [("g"%string, VInt 7)]; hp := [] |}.
 Proof. split; vm_compute; reflexivity. Qed.
 
+(** PARTIAL (7): END TO END for functions with WHILE LOOPS.  The fragment of (6) extended by [while (c) body] statements at the
+    top level of the function body: the condition a pure scalar expression, the body made of assignments (plain or compound),
+    blocks and nested conditionals (no declarations inside, no break / continue).  Whenever the reference semantics runs the
+    body -- whatever the number of iterations -- the outcome is the return of a number v, and the VM model running the lowered
+    function returns exactly v for every sufficient fuel, in a state that agrees with the reference state on every visible
+    name.  Lowering side ([loop_function_correct], [tres_while]): the loop's blocks (condition, body, exit), the branch patched
+    with both targets and the jump back are followed by induction on the number of evaluations of the condition; the code
+    holds no break / continue placeholders, so the final [patch] is the identity ([nobc], [patch_id]).  Source side
+    ([src_while]): an execution of the reference semantics with fuel k evaluates the condition at most k times; the frame of
+    the body stays empty.  [loopsrc_in_fragment] decides the static hypotheses and is evaluated by the check on generated
+    functions.  Missing: for / do loops, break / continue, declarations inside blocks and loop bodies, early returns, calls,
+    aggregates. *)
+Theorem C01_loop_functions_partial :
+  forall (M : module) (fn : func) (n : nat) (l : list stmt) (e : expr) (tf : tfunc) (F : ifunc),
+    f_body fn = l ++ [SRet (Some e)] -> forallb (wstop n) l = true -> spure e = true ->
+    elab_func (genv_of M) (genvl M) fn = EOk tf -> lower_func (m_structs M) (glnames M) tf = LOk F ->
+    forall tl te, tf_body tf = tl ++ [TRet (Some te)] -> length tl = length l ->
+    forallb tok (flat_map (wtopexprs n) tl ++ [te]) = true ->
+    lits_exact (flat_map tflits (flat_map (wtopexprs n) tl ++ [te])) -> (forall q, In q (flat_map tflits (flat_map (wtopexprs n) tl ++ [te])) -> PrimFloat.eqb q q = true) ->
+    Forall (fresh_decl (glnames M) (argnames fn)) l ->
+    forall (P : program) (ws : list rval) (g : RefSem.frame) (vs : vmstate),
+      Forall2 (fun p w => has_ty w (fst p)) (f_args fn) ws ->
+      (forall x, In x (map snd (f_args fn)) -> ~ In x (glnames M)) ->
+      (forall x p, find (fun q => String.eqb (fst q) x) (genvl M) = Some p ->
+         num_ty (snd p) /\ exists w, find (fun q => String.eqb (fst q) x) g = Some (fst p, SV w) /\ has_ty w (snd p) /\ slookup x (globals vs) = Some (v_of w)) ->
+      forall fuel fl st', exec_list M fuel (f_body fn) (call_state fn ws g) = ROk (fl, st') ->
+        exists v vs', fl = OReturn (SV v) /\
+          (exists N, forall fuel', N <= fuel' -> run fuel' P F 0 (call_frame ws (init_regs F)) vs = Done (v_of v) vs') /\
+          (exists locals' V' A', Agree (glnames M) (argnames fn) (env_after (fenv M fn) l) st' locals' V' A' vs') /\
+          (forall y, In y (locals_names st') -> In y (flat_map decl_name l) \/ In y (locals_names (call_state fn ws g))).
+Proof. exact loop_function_simulation. Qed.
+
+Theorem C01_loop_fragment_test_sound : forall M fn, loopsrc_in_fragment M fn = true ->
+  exists l e tf F tl te,
+    f_body fn = l ++ [SRet (Some e)] /\ forallb (wstop flow_depth) l = true /\ spure e = true /\
+    elab_func (genv_of M) (genvl M) fn = EOk tf /\ lower_func (m_structs M) (glnames M) tf = LOk F /\
+    tf_body tf = tl ++ [TRet (Some te)] /\ length tl = length l /\ forallb tok (flat_map (wtopexprs flow_depth) tl ++ [te]) = true /\
+    (forall q, In q (flat_map tflits (flat_map (wtopexprs flow_depth) tl ++ [te])) -> PrimFloat.eqb q q = true) /\
+    Forall (fresh_decl (glnames M) (argnames fn)) l /\ (forall x, In x (map snd (f_args fn)) -> ~ In x (glnames M)).
+Proof. exact loopsrc_in_fragment_sound. Qed.
+
+(** non-vacuity of (7): int g; f(int n, float b) -> float
+    { float acc = b * 0.5; int i = 0; while (i < n) { acc += i; if (g) { g = g - 1; } i = i + 1; } return acc + g; }
+    at n = 4, b = 3, g = 2: both sides give 7.5 and leave g = 0 *)
+Example C01_loop_instance : forall P,
+  exists v vs', fst (match exec_list lp_M 30 (f_body lp_fn) (call_state lp_fn lp_ws lp_g) with ROk p => p | _ => (ONormal, call_state lp_fn lp_ws lp_g) end) = OReturn (SV v) /\
+                exists n, forall fuel', n <= fuel' -> run fuel' P lp_F 0 (call_frame lp_ws (init_regs lp_F)) lp_vs = Done (v_of v) vs'.
+Proof. exact lp_conclusion. Qed.
+Example C01_loop_values :
+  loopsrc_in_fragment lp_M lp_fn = true /\
+  run 200 {| p_funcs := [lp_F]; p_globals := ["g"%string] |} lp_F 0 (call_frame lp_ws (init_regs lp_F)) lp_vs = Done (VFloat 7.5%float) {| globals := [("g"%string, VInt 0)]; hp := [] |}.
+Proof. split; vm_compute; reflexivity. Qed.
+
 (** non-vacuity: 7 / 2 and -7 / 2 truncate; mixed arithmetic promotes; % on non-negative operands *)
 Example C01_examples :
   eval_binop ODiv (RInt 7) (RInt 2) = ROk (RInt 3) /\ eval_binop ODiv (RInt (-7)) (RInt 2) = ROk (RInt (-3)) /\
@@ -223,4 +276,5 @@ Eval compute in "ASSUMPTIONS C01_return_expression_functions_partial"%string. Pr
 Eval compute in "ASSUMPTIONS C01_straight_line_functions_partial"%string. Print Assumptions C01_straight_line_functions_partial.
 Eval compute in "ASSUMPTIONS C01_conditional_lowering_partial"%string. Print Assumptions C01_conditional_lowering_partial.
 Eval compute in "ASSUMPTIONS C01_conditional_functions_partial"%string. Print Assumptions C01_conditional_functions_partial.
+Eval compute in "ASSUMPTIONS C01_loop_functions_partial"%string. Print Assumptions C01_loop_functions_partial.
 Eval compute in "END"%string.
